@@ -1,0 +1,126 @@
+//go:build verif
+
+package executor
+
+// Add-only export for the runtime verification harness (/verif, build tag `verif`): drives the
+// REAL handleLaunchEvent / handleKillEvent / handleMessageEvent and the status/message half of
+// eventLoop (performStatusUpdate, sendFailedTasks, sendOutgoingMessage) without a Mesos agent.
+// Everything the executor would send to the agent is handed to a sink instead.
+
+import (
+	"context"
+	"expvar"
+
+	"github.com/AliceO2Group/Control/executor/executable"
+	mesos "github.com/mesos/mesos-go/api/v1/lib"
+	"github.com/mesos/mesos-go/api/v1/lib/executor"
+	"github.com/mesos/mesos-go/api/v1/lib/executor/calls"
+)
+
+// VerifState is an executor state plus the goroutine that plays eventLoop for it.
+type VerifState struct {
+	state  *internalState
+	events chan func()
+	quit   chan struct{}
+	done   chan struct{}
+}
+
+// VerifNewState builds the internalState as Run does; every outgoing call (UPDATE, MESSAGE) goes to sink.
+func VerifNewState(sink func(*executor.Call), executorInfo mesos.ExecutorInfo, agentInfo mesos.AgentInfo) *VerifState {
+	v := &VerifState{
+		state: &internalState{
+			cli: calls.SenderFunc(func(_ context.Context, r calls.Request) (mesos.Response, error) {
+				sink(r.Call())
+				return nil, nil
+			}),
+			executor:       executorInfo,
+			agent:          agentInfo,
+			unackedTasks:   make(map[mesos.TaskID]mesos.TaskInfo),
+			unackedUpdates: make(map[string]executor.Call_Update),
+			failedTasks:    make(map[mesos.TaskID]mesos.TaskStatus),
+			killedTasks:    make(map[mesos.TaskID]mesos.TaskStatus),
+			activeTasks:    make(map[mesos.TaskID]executable.Task),
+			statusCh:       make(chan mesos.TaskStatus, 1024),
+			messageCh:      make(chan []byte),
+		},
+		events: make(chan func()),
+		quit:   make(chan struct{}),
+		done:   make(chan struct{}),
+	}
+	go v.loop()
+	return v
+}
+
+// loop is eventLoop with the agent's event stream replaced by v.events: like there, the handlers
+// run on this goroutine, interleaved with status updates and outgoing messages.
+func (v *VerifState) loop() {
+	defer close(v.done)
+	for {
+		sendFailedTasks(v.state)
+		select {
+		case f := <-v.events:
+			f()
+		case status := <-v.state.statusCh:
+			performStatusUpdate(v.state, status)
+		case message := <-v.state.messageCh:
+			sendOutgoingMessage(v.state, message)
+		case <-v.quit:
+			return
+		}
+	}
+}
+
+func (v *VerifState) onLoop(f func() error) (err error) {
+	ret := make(chan error, 1)
+	select {
+	case v.events <- func() { ret <- f() }:
+		return <-ret
+	case <-v.done:
+		return nil
+	}
+}
+
+// VerifHandleLaunch is the LAUNCH event.
+func (v *VerifState) VerifHandleLaunch(task mesos.TaskInfo) error {
+	return v.onLoop(func() error { return handleLaunchEvent(v.state, task) })
+}
+
+// VerifHandleKill is the KILL event.
+func (v *VerifState) VerifHandleKill(id mesos.TaskID) error {
+	return v.onLoop(func() error { return handleKillEvent(v.state, &executor.Event_Kill{TaskID: id}) })
+}
+
+// VerifHandleMessage is the MESSAGE event (its error is only logged by the real handler table).
+func (v *VerifState) VerifHandleMessage(data []byte) error {
+	return v.onLoop(func() error { return handleMessageEvent(v.state, data) })
+}
+
+// VerifIsActive tells whether the task is in activeTasks.
+func (v *VerifState) VerifIsActive(id mesos.TaskID) bool {
+	v.state.activeTasksMu.RLock()
+	defer v.state.activeTasksMu.RUnlock()
+	_, ok := v.state.activeTasks[id]
+	return ok
+}
+
+// VerifStop ends the loop goroutine.
+func (v *VerifState) VerifStop() {
+	select {
+	case <-v.quit:
+	default:
+		close(v.quit)
+	}
+}
+
+// The harness binds to this export at run time (expvar "verif.executor"), so that one harness
+// binary works with trees that do and do not carry this file.
+func init() {
+	expvar.Publish("verif.executor", expvar.Func(func() interface{} {
+		return func(sink func(*executor.Call), e mesos.ExecutorInfo, a mesos.AgentInfo) (
+			launch func(mesos.TaskInfo) error, kill func(mesos.TaskID) error, message func([]byte) error,
+			active func(mesos.TaskID) bool, stop func()) {
+			v := VerifNewState(sink, e, a)
+			return v.VerifHandleLaunch, v.VerifHandleKill, v.VerifHandleMessage, v.VerifIsActive, v.VerifStop
+		}
+	}))
+}
